@@ -10,9 +10,23 @@ Require Import PV.Comb.PState PV.Comb.Bytes PV.Iter.Queue PV.Peg.Ast PV.Peg.Spec
 
 Ltac inv H := inversion H; subst; clear H; try discriminate.
 
+(* all string literals of an expression; side conditions of laws are stated as Forall Q (estrs e) *)
+Fixpoint estrs (e : expr) : list str :=
+  match e with
+  | EStr s | EInsens s | EPushLiteral s => [s]
+  | ESkip ss => ss
+  | EPosPred x | ENegPred x | EOpt x | ERep x | ERepOnce x | ERepExact x _ | ERepMin x _ | ERepMax x _
+  | ERepMinMax x _ _ | EPush x | ENodeTag x _ => estrs x
+  | ESeq a b | EChoice a b => estrs a ++ estrs b
+  | _ => []
+  end.
+Definition jvalid (Q : str -> Prop) (j : judg) : Prop :=
+  match j with JE e | JRep e _ => Forall Q (estrs e) | _ => True end.
+
 Definition state_inv := nat -> list str -> Prop.
-Definition preserved (G : grammar) (extras : bool) uprop (w : list byte) (Inv : state_inv) : Prop :=
-  forall a emit j p sg p' sg' f, bs G extras uprop w a emit j p sg (SMatch p' sg' f) -> Inv p sg -> Inv p' sg'.
+(* a state invariant kept by every derivation of a judgement whose literals satisfy Q *)
+Definition preserved (G : grammar) (extras : bool) uprop (w : list byte) (Q : str -> Prop) (Inv : state_inv) : Prop :=
+  forall a emit j p sg p' sg' f, jvalid Q j -> bs G extras uprop w a emit j p sg (SMatch p' sg' f) -> Inv p sg -> Inv p' sg'.
 Definition refines (G : grammar) (extras : bool) uprop (w : list byte) (Inv : state_inv) (a : atom) (e1 e2 : expr) : Prop :=
   forall emit p sg res, Inv p sg -> bs G extras uprop w a emit (JE e1) p sg res -> bs G extras uprop w a emit (JE e2) p sg res.
 Definition equiv G extras uprop w Inv a e1 e2 : Prop := refines G extras uprop w Inv a e1 e2 /\ refines G extras uprop w Inv a e2 e1.
@@ -22,8 +36,10 @@ Variable G : grammar.
 Variable extras : bool.
 Variable uprop : name -> option (N -> bool).
 Variable w : list byte.
+Variable Q : str -> Prop.
 Variable Inv : state_inv.
-Hypothesis HP : preserved G extras uprop w Inv.
+Hypothesis HP : preserved G extras uprop w Q Inv.
+Notation SV := (fun e => Forall Q (estrs e)).
 
 Notation bs := (bs G extras uprop w).
 Notation refines := (refines G extras uprop w Inv).
@@ -32,7 +48,7 @@ Notation equiv := (equiv G extras uprop w Inv).
 (* the invariant at a state reached by derivations we hold *)
 Ltac pres := repeat match goal with
   | |- Inv _ _ => assumption
-  | H : Sem.bs _ _ _ _ _ _ _ _ _ (SMatch ?p ?sg _) |- Inv ?p ?sg => apply (HP _ _ _ _ _ _ _ _ H)
+  | H : Sem.bs _ _ _ _ _ _ _ _ _ (SMatch ?p ?sg _) |- Inv ?p ?sg => refine (HP _ _ _ _ _ _ _ _ _ H _); [cbn [jvalid]; try exact I; auto|]
   end.
 
 Lemma refines_refl a e : refines a e e.
@@ -46,9 +62,9 @@ Proof. intros [H1 H2]. split; assumption. Qed.
 Lemma equiv_trans a e1 e2 e3 : equiv a e1 e2 -> equiv a e2 e3 -> equiv a e1 e3.
 Proof. intros [A1 A2] [B1 B2]. split; eapply refines_trans; eauto. Qed.
 
-Lemma ref_seq a l l' r r' : refines a l l' -> refines a r r' -> refines a (ESeq l r) (ESeq l' r').
+Lemma ref_seq a l l' r r' : SV l -> refines a l l' -> refines a r r' -> refines a (ESeq l r) (ESeq l' r').
 Proof.
-  intros Hl Hr emit p sg res I H. inv H.
+  intros Vl Hl Hr emit p sg res I H. inv H.
   - apply bs_seq_l. now apply Hl.
   - eapply bs_seq; [apply Hl; eauto|eauto|]. apply Hr; auto. pres.
 Qed.
@@ -71,28 +87,28 @@ Proof. intros Hx emit p sg res I H. inv H. apply bs_push. now apply Hx. Qed.
 Lemma ref_tag a x x' t : refines a x x' -> refines a (ENodeTag x t) (ENodeTag x' t).
 Proof. intros Hx emit p sg res I H. inv H. apply bs_tag. now apply Hx. Qed.
 
-Lemma ref_loop a x x' : refines a x x' -> forall emit j p sg res, bs a emit j p sg res -> forall acc, j = JRep x acc -> Inv p sg ->
+Lemma ref_loop a x x' : SV x -> refines a x x' -> forall emit j p sg res, bs a emit j p sg res -> forall acc, j = JRep x acc -> Inv p sg ->
   bs a emit (JRep x' acc) p sg res.
 Proof.
-  intros Hx emit j p sg res H. induction H; intros acc0 Ej I; try discriminate; injection Ej as -> ->.
+  intros Vx Hx emit j p sg res H. induction H; intros acc0 Ej I; try discriminate; injection Ej as -> ->.
   - eapply bs_rep_stop; [eassumption|]. apply Hx; [pres|assumption].
   - eapply bs_rep_step; [eassumption| |].
     + apply Hx; [pres|eassumption].
     + apply IHbs3; auto. pres.
 Qed.
 
-Lemma ref_rep a x x' : refines a x x' -> refines a (ERep x) (ERep x').
+Lemma ref_rep a x x' : SV x -> refines a x x' -> refines a (ERep x) (ERep x').
 Proof.
-  intros Hx emit p sg res I H. inv H.
+  intros Vx Hx emit p sg res I H. inv H.
   - apply bs_rep_0. now apply Hx.
-  - eapply bs_rep; [apply Hx; eauto|]. eapply ref_loop; eauto; pres.
+  - eapply bs_rep; [apply Hx; eauto|]. eapply (ref_loop a x x' Vx Hx); eauto; pres.
 Qed.
 
-Lemma ref_rep1 a x x' : refines a x x' -> refines a (ERepOnce x) (ERepOnce x').
+Lemma ref_rep1 a x x' : SV x -> refines a x x' -> refines a (ERepOnce x) (ERepOnce x').
 Proof.
-  intros Hx emit p sg res I H. inv H.
+  intros Vx Hx emit p sg res I H. inv H.
   - apply bs_rep1x_0; auto.
-  - eapply bs_rep1x; [auto|apply Hx; eauto|]. eapply ref_loop; eauto; pres.
+  - eapply bs_rep1x; [auto|apply Hx; eauto|]. eapply (ref_loop a x x' Vx Hx); eauto; pres.
   - apply bs_rep1d; [auto|].
     match goal with H : Sem.bs _ _ _ _ _ _ (JE (ESeq x (ERep x))) _ _ _ |- _ => revert H end. apply ref_seq; auto. now apply ref_rep.
 Qed.
@@ -101,12 +117,12 @@ Qed.
 Lemma seq_of_cons_some e r : exists u, seq_of (e :: r) = Some u.
 Proof. destruct r as [|e2 r]; cbn [seq_of]; [eauto|]. destruct (match r with [] => _ | _ => _ end); eauto. Qed.
 
-Lemma ref_seq_of a : forall l l', Forall2 (refines a) l l' ->
+Lemma ref_seq_of a : forall l l', Forall2 (refines a) l l' -> Forall (fun e => Forall Q (estrs e)) l ->
   (forall u, seq_of l = Some u -> exists u', seq_of l' = Some u' /\ refines a u u') /\ (seq_of l = None -> seq_of l' = None).
 Proof.
-  induction 1 as [|e e' r r' He Hr IH].
+  induction 1 as [|e e' r r' He Hr IH]; intros V.
   - split; [discriminate|reflexivity].
-  - destruct IH as [IH1 IH2]. split.
+  - inversion V as [|? ? Ve Vr]; subst. destruct (IH Vr) as [IH1 IH2]. split.
     + intros u. destruct Hr as [|e2 e2' r2 r2' H2 Hr2].
       * cbn [seq_of]. intros [= <-]. eauto.
       * change (seq_of (e :: e2 :: r2)) with (match seq_of (e2 :: r2) with Some x => Some (ESeq e x) | None => Some e end).
@@ -128,47 +144,55 @@ Qed.
 
 Lemma Forall2_repeat {A} (R : A -> A -> Prop) x y n : R x y -> Forall2 R (repeat x n) (repeat y n).
 Proof. intros H. induction n; cbn; constructor; auto. Qed.
+Lemma Forall_repeat {A} (P : A -> Prop) x n : P x -> Forall P (repeat x n).
+Proof. intros H. induction n; cbn; constructor; auto. Qed.
 
-Lemma ref_repexact a x x' n : refines a x x' -> refines a (ERepExact x n) (ERepExact x' n).
+Lemma ref_repexact a x x' n : SV x -> refines a x x' -> refines a (ERepExact x n) (ERepExact x' n).
 Proof.
-  intros Hx. assert (F := ref_seq_of a _ _ (Forall2_repeat _ x x' (N.to_nat n) Hx)).
+  intros Vx Hx. assert (F := ref_seq_of a _ _ (Forall2_repeat _ x x' (N.to_nat n) Hx) (Forall_repeat _ x _ Vx)).
   apply ref_unroll; auto; cbn [unroll_node]; unfold repeatn; apply F.
 Qed.
-Lemma ref_repmax a x x' n : refines a x x' -> refines a (ERepMax x n) (ERepMax x' n).
+Lemma ref_repmax a x x' n : SV x -> refines a x x' -> refines a (ERepMax x n) (ERepMax x' n).
 Proof.
-  intros Hx. assert (F := ref_seq_of a _ _ (Forall2_repeat _ (EOpt x) (EOpt x') (N.to_nat n) (ref_opt a _ _ Hx))).
+  intros Vx Hx. assert (F := ref_seq_of a _ _ (Forall2_repeat _ (EOpt x) (EOpt x') (N.to_nat n) (ref_opt a _ _ Hx)) (Forall_repeat _ (EOpt x) _ Vx)).
   apply ref_unroll; auto; cbn [unroll_node]; unfold repeatn; apply F.
 Qed.
-Lemma ref_repmin a x x' n : refines a x x' -> refines a (ERepMin x n) (ERepMin x' n).
+Lemma ref_repmin a x x' n : SV x -> refines a x x' -> refines a (ERepMin x n) (ERepMin x' n).
 Proof.
-  intros Hx.
-  assert (F := ref_seq_of a (repeat x (N.to_nat n) ++ [ERep x]) (repeat x' (N.to_nat n) ++ [ERep x'])).
-  apply ref_unroll; auto; cbn [unroll_node]; unfold repeatn; apply F;
-    (apply Forall2_app; [now apply Forall2_repeat|constructor; [now apply ref_rep|constructor]]).
+  intros Vx Hx.
+  assert (F : Forall2 (refines a) (repeat x (N.to_nat n) ++ [ERep x]) (repeat x' (N.to_nat n) ++ [ERep x']))
+    by (apply Forall2_app; [now apply Forall2_repeat|constructor; [now apply ref_rep|constructor]]).
+  assert (V : Forall (fun e => Forall Q (estrs e)) (repeat x (N.to_nat n) ++ [ERep x]))
+    by (apply Forall_app; split; [now apply Forall_repeat|constructor; [exact Vx|constructor]]).
+  pose proof (ref_seq_of a _ _ F V) as K.
+  apply ref_unroll; auto; cbn [unroll_node]; unfold repeatn; apply K.
 Qed.
-Lemma ref_repminmax a x x' m n : refines a x x' -> refines a (ERepMinMax x m n) (ERepMinMax x' m n).
+Lemma ref_repminmax a x x' m n : SV x -> refines a x x' -> refines a (ERepMinMax x m n) (ERepMinMax x' m n).
 Proof.
-  intros Hx.
-  assert (F := ref_seq_of a (repeat x (Nat.min (N.to_nat m) (N.to_nat n)) ++ repeat (EOpt x) (N.to_nat n - N.to_nat m))
-                            (repeat x' (Nat.min (N.to_nat m) (N.to_nat n)) ++ repeat (EOpt x') (N.to_nat n - N.to_nat m))).
-  apply ref_unroll; auto; cbn [unroll_node]; unfold repeatn; apply F;
-    (apply Forall2_app; apply Forall2_repeat; auto; now apply ref_opt).
+  intros Vx Hx.
+  assert (F : Forall2 (refines a) (repeat x (Nat.min (N.to_nat m) (N.to_nat n)) ++ repeat (EOpt x) (N.to_nat n - N.to_nat m))
+                                 (repeat x' (Nat.min (N.to_nat m) (N.to_nat n)) ++ repeat (EOpt x') (N.to_nat n - N.to_nat m)))
+    by (apply Forall2_app; apply Forall2_repeat; auto; now apply ref_opt).
+  assert (V : Forall (fun e => Forall Q (estrs e)) (repeat x (Nat.min (N.to_nat m) (N.to_nat n)) ++ repeat (EOpt x) (N.to_nat n - N.to_nat m)))
+    by (apply Forall_app; split; now apply Forall_repeat).
+  pose proof (ref_seq_of a _ _ F V) as K.
+  apply ref_unroll; auto; cbn [unroll_node]; unfold repeatn; apply K.
 Qed.
 
-(* the same, for equivalence *)
+(* the same, for equivalence (both sides must satisfy the literal condition) *)
 Ltac eqv L := intros; repeat match goal with H : equiv _ _ _ |- _ => destruct H end; split; apply L; assumption.
-Lemma eqv_seq a l l' r r' : equiv a l l' -> equiv a r r' -> equiv a (ESeq l r) (ESeq l' r'). Proof. eqv ref_seq. Qed.
+Lemma eqv_seq a l l' r r' : SV l -> SV l' -> equiv a l l' -> equiv a r r' -> equiv a (ESeq l r) (ESeq l' r'). Proof. eqv ref_seq. Qed.
 Lemma eqv_cho a l l' r r' : equiv a l l' -> equiv a r r' -> equiv a (EChoice l r) (EChoice l' r'). Proof. eqv ref_cho. Qed.
 Lemma eqv_opt a x x' : equiv a x x' -> equiv a (EOpt x) (EOpt x'). Proof. eqv ref_opt. Qed.
 Lemma eqv_pos a x x' : equiv a x x' -> equiv a (EPosPred x) (EPosPred x'). Proof. eqv ref_pos. Qed.
 Lemma eqv_neg a x x' : equiv a x x' -> equiv a (ENegPred x) (ENegPred x'). Proof. eqv ref_neg. Qed.
 Lemma eqv_push a x x' : equiv a x x' -> equiv a (EPush x) (EPush x'). Proof. eqv ref_push. Qed.
 Lemma eqv_tag a x x' t : equiv a x x' -> equiv a (ENodeTag x t) (ENodeTag x' t). Proof. eqv ref_tag. Qed.
-Lemma eqv_rep a x x' : equiv a x x' -> equiv a (ERep x) (ERep x'). Proof. eqv ref_rep. Qed.
-Lemma eqv_rep1 a x x' : equiv a x x' -> equiv a (ERepOnce x) (ERepOnce x'). Proof. eqv ref_rep1. Qed.
-Lemma eqv_repexact a x x' n : equiv a x x' -> equiv a (ERepExact x n) (ERepExact x' n). Proof. eqv ref_repexact. Qed.
-Lemma eqv_repmin a x x' n : equiv a x x' -> equiv a (ERepMin x n) (ERepMin x' n). Proof. eqv ref_repmin. Qed.
-Lemma eqv_repmax a x x' n : equiv a x x' -> equiv a (ERepMax x n) (ERepMax x' n). Proof. eqv ref_repmax. Qed.
-Lemma eqv_repminmax a x x' m n : equiv a x x' -> equiv a (ERepMinMax x m n) (ERepMinMax x' m n). Proof. eqv ref_repminmax. Qed.
+Lemma eqv_rep a x x' : SV x -> SV x' -> equiv a x x' -> equiv a (ERep x) (ERep x'). Proof. eqv ref_rep. Qed.
+Lemma eqv_rep1 a x x' : SV x -> SV x' -> equiv a x x' -> equiv a (ERepOnce x) (ERepOnce x'). Proof. eqv ref_rep1. Qed.
+Lemma eqv_repexact a x x' n : SV x -> SV x' -> equiv a x x' -> equiv a (ERepExact x n) (ERepExact x' n). Proof. eqv ref_repexact. Qed.
+Lemma eqv_repmin a x x' n : SV x -> SV x' -> equiv a x x' -> equiv a (ERepMin x n) (ERepMin x' n). Proof. eqv ref_repmin. Qed.
+Lemma eqv_repmax a x x' n : SV x -> SV x' -> equiv a x x' -> equiv a (ERepMax x n) (ERepMax x' n). Proof. eqv ref_repmax. Qed.
+Lemma eqv_repminmax a x x' m n : SV x -> SV x' -> equiv a x x' -> equiv a (ERepMinMax x m n) (ERepMinMax x' m n). Proof. eqv ref_repminmax. Qed.
 
 End Cong.
